@@ -970,7 +970,7 @@ class P(Prop):
                     for d, before in enumerate(prev):
                         after = st["states"][d]
                         if after != before:
-                            what = "groups" if after["groups"] != before["groups"] else "flag" if after["valid"] != before["valid"] else "index"
+                            what = "groups" if after["groups"] != before["groups"] else "valid" if after["valid"] != before["valid"] else "index"
                             return tag + "the lookup caller changed the %s of collection %d: %r before, %r after" % (
                                 what, d, before[what], after[what])
                 rows = effective_rows(op)
@@ -1038,7 +1038,7 @@ class P(Prop):
                     for d, before in enumerate(prev):
                         after = st["states"][d]
                         if after != before:
-                            what = "groups" if after["groups"] != before["groups"] else "flag" if after["valid"] != before["valid"] else "index"
+                            what = "groups" if after["groups"] != before["groups"] else "valid" if after["valid"] != before["valid"] else "index"
                             return tag + "the reader changed the %s of collection %d: %r before, %r after" % (
                                 what, d, before[what], after[what])
                 if failed:
